@@ -532,7 +532,7 @@ def r22_bound_kind(ctx):
                     raw = {k_: U(v_) for k_, v_ in
                            ctx.bound_args(f, c).items()}
                     ok = "min_val" in raw and "max_val" in raw and \
-                        _sign_window(f, raw["min_val"], raw["max_val"])
+                        _sign_window_all(ctx, f)
                     key = ctx.fkey(f, None, "bounds:%s:%s" % (
                         name, raw.get("max_val")))
                     why = "zone minutes lie within the sign-dependent " \
@@ -570,6 +570,23 @@ def r22_bound_kind(ctx):
                     d["$" + c.args[0].attr] = True
             return None
 
+        def refine(s, test, d):
+            # a field known to be None needs no check: _bounds_checker
+            # accepts None (its own decision table is checked above)
+            s.eval(test, d)
+            t, f_ = d, dict(d)
+            tt, pol = test, True
+            if isinstance(tt, ast.UnaryOp) and isinstance(tt.op, ast.Not):
+                tt, pol = tt.operand, False
+            if isinstance(tt, ast.Compare) and len(tt.ops) == 1 and \
+                    isinstance(tt.ops[0], (ast.Is, ast.IsNot)) and \
+                    U(tt.comparators[0]) == "None" and isinstance(
+                        tt.left, ast.Attribute) and \
+                    U(tt.left.value) == cb.self_name:
+                none_when_true = isinstance(tt.ops[0], ast.Is) == pol
+                (t if none_when_true else f_)["$" + tt.left.attr] = True
+            return [t], [f_]
+
         def on_return(s, st, d, v):
             s.exits.append(dict(d))
     pl = P2()
@@ -593,7 +610,7 @@ def r22_bound_kind(ctx):
                 len(c.args) >= 2 and "minutes" in U(c.args[1]):
             kw = {k_: U(v_) for k_, v_ in ctx.bound_args(z, c).items()}
             if "min_val" in kw and "max_val" in kw:
-                three = _sign_window(z, kw["min_val"], kw["max_val"])
+                three = _sign_window_all(ctx, z)
     rep.check(three, rule, ctx.fkey(z, None, "sign-window"), z.loc(),
               "the minute window is narrowed by the sign of the hours "
               "(conflicting signs are refused)",
@@ -604,7 +621,27 @@ def r22_bound_kind(ctx):
               P + ("C06",))
 
 
-def _sign_window(f, mn, mx):
+def _sign_window_all(ctx, f):
+    """The same over every `_bounds_checker(minutes, ...)` call of f taken
+    together: the bounds may be chosen by the branch the call sits in
+    instead of by a local or a conditional expression."""
+    from ..flow import path_conds
+    mins, maxs = [], []
+    for c in walk_no_nested(f.node):
+        if isinstance(c, ast.Call) and U(c.func) == "_bounds_checker" and \
+                len(c.args) >= 2 and "minutes" in U(c.args[1]):
+            kw = ctx.bound_args(f, c)
+            if "min_val" not in kw or "max_val" not in kw:
+                return False
+            pc = list(path_conds(c))
+            mins.append((kw["min_val"], pc))
+            maxs.append((kw["max_val"], pc))
+    if not mins:
+        return False
+    return _sign_window(f, None, None, mins, maxs)
+
+
+def _sign_window(f, mn, mx, mins=None, maxs=None):
     """min/max variables start at -(MINUTES_IN_HOUR-1) / +(MINUTES_IN_HOUR-1)
     and are narrowed to 0 under hours > 0 / hours < 0 respectively."""
     from ..flow import alternatives, zero_relations
@@ -618,8 +655,29 @@ def _sign_window(f, mn, mx):
 
     from ..linear import lin
 
-    def window(name, narrowing, widest):
-        alts = alternatives(f.node, name)
+    from ..flow import expand_values
+
+    def alts_of(name):
+        # the bound as written at the call: a local (the values it takes)
+        # or an expression such as `0 if hours > 0 else -limit`
+        try:
+            expr = name if isinstance(name, ast.AST) else ast.parse(
+                name, mode="eval").body
+        except SyntaxError:
+            return []
+        return expand_values(f.node, expr) if not isinstance(
+            expr, ast.Name) else alternatives(f.node, expr.id)
+
+    def window(name, narrowing, widest, several=None):
+        if several is not None:
+            alts = []
+            for expr, pc in several:
+                got = alts_of(expr)
+                if not got:
+                    return False
+                alts += [(v, list(c) + pc) for v, c in got]
+        else:
+            alts = alts_of(name)
         if not alts:
             return False
         zero = [c for v, c in alts if U(v) == "0"]
@@ -640,7 +698,7 @@ def _sign_window(f, mn, mx):
             if narrowing in rel:
                 return False
         return True
-    return window(mn, ">", -59) and window(mx, "<", 59)
+    return window(mn, ">", -59, mins) and window(mx, "<", 59, maxs)
 
 
 # ------------------------------------------------------------------- R33
@@ -698,6 +756,72 @@ def r33_trunc_guard(ctx):
             "parser results may be truncated and TimeRecurrence.__init__ "
             "applies +, - to them: TypeError leaves "
             "TimeRecurrenceParser.parse" % (f.qual, label), P)
+
+
+def _r20_float_to_int(ctx):
+    """int() of a float taken from text can raise OverflowError (the text
+    '1e999' is a float, infinity) - which is not a ValueError.  In the
+    parsers no int() is applied to a value that went through float(),
+    unless a handler for OverflowError / ArithmeticError encloses it."""
+    rep = ctx.rep
+    rule = "R20.raise"
+    for f in ctx.model.all_functions():
+        if f.module.name != "parsers":
+            continue
+        floats = set()
+        for n in walk_no_nested(f.node):
+            if isinstance(n, ast.Assign) and any(
+                    isinstance(c, ast.Call) and U(c.func) == "float"
+                    for c in ast.walk(n.value)):
+                for t in n.targets:
+                    if isinstance(t, ast.Name):
+                        floats.add(t.id)
+        for n in walk_no_nested(f.node):
+            if not (isinstance(n, ast.Call) and U(n.func) == "int" and
+                    len(n.args) == 1):
+                continue
+            a = n.args[0]
+            from_float = any(isinstance(c, ast.Call) and U(c.func) == "float"
+                             for c in ast.walk(a))
+            if isinstance(a, ast.Name) and a.id in floats:
+                # the values that reach this use (not any float() stored
+                # under the same name in another branch)
+                from .zone import defs_before
+                reach = defs_before(f, a.id, n)
+                from_float = bool(reach) and any(
+                    isinstance(c, ast.Call) and U(c.func) == "float"
+                    for d_ in reach for c in ast.walk(d_.value))
+            if not from_float:
+                continue
+            guarded = False
+            cur = parent(n)
+            while cur is not None and cur is not f.node:
+                if isinstance(cur, ast.Try):
+                    for h in cur.handlers:
+                        names = U(h.type) if h.type is not None else \
+                            "BaseException"
+                        if any(k in names for k in (
+                                "OverflowError", "ArithmeticError",
+                                "Exception", "BaseException")):
+                            guarded = True
+                cur = parent(cur)
+            rep.check(guarded, rule, ctx.fkey(f, n, "int-of-float"),
+                      f.loc(n), "int() of a parsed float is guarded "
+                      "against OverflowError",
+                      "%s applies int() to `%s`, a float read from the "
+                      "text: for a component such as 1e999 (float "
+                      "infinity) int() raises OverflowError, which is not "
+                      "derived from ValueError - malformed text must be "
+                      "refused with a ValueError-derived error" % (
+                          f.qual, U(a)[:40]), ("C09",))
+
+
+_r20_orig = r20_exc_flow
+
+
+def r20_exc_flow(ctx):      # noqa: F811
+    _r20_orig(ctx)
+    _r20_float_to_int(ctx)
 
 
 RULES = {"R20": r20_exc_flow, "R21": r21_guard_bypass, "R22": r22_bound_kind,
